@@ -388,7 +388,7 @@ def configs(tier, small=False):
     from mc.props import c07, c08, c09, c14
     out = []
     for sh in c07.shards(tier):
-        if sh.get('early'):
+        if sh.get('early') or sh.get('directsim'):
             continue            # simulator life-cycle variants: C07 only
         for c in c07.expand(sh):
             out.append(('c07', c))
